@@ -9,13 +9,18 @@
 package main
 
 import (
+	"context"
 	"encoding/json"
 	"fmt"
 	"os"
 	"runtime/pprof"
+	"strings"
 	"sync"
+	"time"
 
+	"github.com/twmb/franz-go/pkg/kfake"
 	"github.com/twmb/franz-go/pkg/kgo"
+	"github.com/twmb/franz-go/pkg/kmsg"
 	"verif.local/ev"
 
 	"verif/checks/c25/balenum"
@@ -138,6 +143,97 @@ func replay(path string) {
 	if bad > 0 {
 		os.Exit(1)
 	}
+}
+
+// kfakeStaticReturnScenario is the end-to-end witness for conflicting previous
+// targets in kfake: on a real cluster (public API only, raw KIP-848
+// heartbeats) a static member goes on leave (epoch -2), another member joins
+// (the assignor hands the absent member's partition to it), the static member
+// is replaced by a new member with the same instance ID (which inherits the
+// old target), and one more member joins (the assignor runs again). It
+// reports whether the target assignment described by the broker afterwards
+// holds a partition on two active members.
+func kfakeStaticReturnScenario() (dup bool, transcript string) {
+	var sb strings.Builder
+	defer func() {
+		if r := recover(); r != nil {
+			fmt.Fprintf(&sb, "scenario aborted: %v\n", r)
+			dup, transcript = false, sb.String()
+		}
+	}()
+	c, err := kfake.NewCluster(kfake.NumBrokers(1), kfake.SeedTopics(2, "ta"))
+	if err != nil {
+		panic(err)
+	}
+	defer c.Close()
+	cl, err := kgo.NewClient(kgo.SeedBrokers(c.ListenAddrs()...))
+	if err != nil {
+		panic(err)
+	}
+	defer cl.Close()
+	ctx, cancel := context.WithTimeout(context.Background(), 20*time.Second)
+	defer cancel()
+	hb := func(member string, epoch int32, instance *string, join bool) {
+		req := kmsg.NewPtrConsumerGroupHeartbeatRequest()
+		req.Group, req.MemberID, req.MemberEpoch, req.InstanceID = "g", member, epoch, instance
+		if join {
+			req.RebalanceTimeoutMillis = 60000
+			req.SubscribedTopicNames = []string{"ta"}
+			req.ServerAssignor = kmsg.StringPtr("uniform")
+			req.Topics = []kmsg.ConsumerGroupHeartbeatRequestTopic{}
+		}
+		resp, err := req.RequestWith(ctx, cl)
+		if err != nil {
+			panic(err)
+		}
+		if resp.ErrorCode != 0 {
+			panic(fmt.Sprintf("heartbeat %s epoch %d: error code %d", member, epoch, resp.ErrorCode))
+		}
+	}
+	describe := func(when string) bool {
+		req := kmsg.NewPtrConsumerGroupDescribeRequest()
+		req.Groups = []string{"g"}
+		resp, err := req.RequestWith(ctx, cl)
+		if err != nil {
+			panic(err)
+		}
+		holders := map[int32][]string{}
+		fmt.Fprintf(&sb, "%s:", when)
+		for _, g := range resp.Groups {
+			fmt.Fprintf(&sb, " group epoch %d;", g.Epoch)
+			for _, m := range g.Members {
+				var ps []int32
+				for _, t := range m.TargetAssignment.TopicPartitions {
+					ps = append(ps, t.Partitions...)
+				}
+				fmt.Fprintf(&sb, " %s(epoch %d) target ta%v;", m.MemberID, m.MemberEpoch, ps)
+				if m.MemberEpoch != -2 {
+					for _, p := range ps {
+						holders[p] = append(holders[p], m.MemberID)
+					}
+				}
+			}
+		}
+		sb.WriteString("\n")
+		for _, hs := range holders {
+			if len(hs) > 1 {
+				return true
+			}
+		}
+		return false
+	}
+	iA := "iA"
+	hb("A", 0, &iA, true)
+	hb("B", 0, nil, true)
+	describe("static A (instance iA) and dynamic B joined, topic ta has 2 partitions")
+	hb("A", -2, &iA, false)
+	hb("C", 0, nil, true)
+	describe("A sent a static leave (epoch -2), then C joined")
+	hb("A2", 0, &iA, true)
+	describe("A2 joined with instance iA and inherited A's target")
+	hb("D", 0, nil, true)
+	dup = describe("D joined (the uniform assignor ran again)")
+	return dup, sb.String()
 }
 
 func main() {
@@ -331,8 +427,23 @@ func main() {
 		for _, smp := range s.Samples {
 			r.Sample(smp)
 		}
+		witnessed, transcript := kfakeStaticReturnScenario()
+		r.Set("kfake_static_return_scenario_reproduces_duplicate_target", witnessed)
+		reported := false
 		for _, f := range s.Findings {
-			r.Violation(f.Key, fmt.Sprintf("%s (%d inputs hit this class; smallest shown)", f.What, f.Count), f.Artefact)
+			what := fmt.Sprintf("%s (%d inputs hit this class; smallest shown)", f.What, f.Count)
+			if f.Key == "kfake-uniform:assigned-twice" {
+				reported = true
+				if witnessed {
+					what += "\nA previous target with two holders of one partition is reachable through the public protocol; end-to-end witness on a real kfake cluster:\n" + transcript
+				} else {
+					what += "\n(the end-to-end static-member scenario did not produce a duplicate this time)\n" + transcript
+				}
+			}
+			r.Violation(f.Key, what, f.Artefact)
+		}
+		if witnessed && !reported {
+			r.Violation("kfake-uniform:assigned-twice", "end-to-end on a real kfake cluster the uniform assignor's target holds one partition on two members:\n"+transcript, map[string]any{"balancer": "kfake-uniform", "scenario": transcript})
 		}
 	} else {
 		r.NotExhaustive("kfake in-package harness summary not provided (C25_KFAKE_SUMMARY unset)")
